@@ -205,11 +205,11 @@ let names_nodup (db : dbfield list) = nodupb (List.map fst db)
 let doc_ser_value d db : cell list outcome option =
   if not d.vd_ordered then (if names_nodup db then Some (doc_ser_value_by_name d db) else None)
   else if d.vd_snc then Some (doc_ser_value_snc d db)
-  else Some (doc_ser_value_ordered_am d db)
+  else Some (doc_ser_value_ordered_strict d db)   (* the DOCUMENTED table; = the code's outside class F24 *)
 let doc_de_value d db cells : cell list outcome option =
   if not d.vd_ordered then Some (doc_deser_value_by_name d db cells)
   else if d.vd_snc then Some (doc_deser_value_snc d db cells)
-  else Some (doc_deser_value_ordered_am d db cells)
+  else Some (doc_deser_value_ordered_strict d db cells)
 let doc_ser_row d cols : cell list outcome option =
   if not d.rd_ordered then (if rdesc_wf d then Some (doc_ser_row_by_name d cols) else None)
   else Some (doc_ser_row_ordered_gen d cols)
@@ -240,12 +240,22 @@ and verdict_case case impl =
     let t = dbtype_of dbt in
     let (impl_ser, impl_rt) = split_rt impl in
     let m = ser_str (gen_ser_value d t) in
-    (* known finding: inputs of the class are judged by the DOCUMENTED (strict) table even when the
-       model, which reproduces the code, agrees with the implementation *)
-    if (match t with TUdt db -> ordered_am_drops d db | TNative _ -> false) &&
-       (match split_on ' ' impl_ser with "ok" :: _ -> true | _ -> false)
-    then "viol class=" ^ known_class ^ " doc=reject model=" ^ m
-    else
+    (* known finding F24: on an input of the class the documented (strict) table says Reject.  The
+       class tag is attached ONLY when the implementation's output equals the model of the known
+       behaviour (same bytes AND same round-trip outcome); a rejection is what the docs demand -> ok;
+       any other accepted output is an untagged violation of the documented table. *)
+    if (match t with TUdt db -> ordered_am_drops d db | TNative _ -> false) then begin
+      let db = match t with TUdt db -> db | TNative _ -> [] in
+      let cells = match gen_ser_value_cells d db with Ok cs -> cs | Err _ -> [] in
+      let mrt = de_str (gen_typeck_value d t) (fun () -> gen_deser_value d db cells) in
+      let model_accepts = String.length m >= 2 && String.sub m 0 2 = "ok" in
+      if impl_ser = m && not model_accepts then "ok"            (* both reject, same error *)
+      else if impl_ser = m && impl_rt = Some mrt then "viol class=" ^ known_class ^ " doc=reject model=" ^ m ^ " rt " ^ mrt
+      else match split_on ' ' impl_ser with
+        | "err" :: _ when not model_accepts -> "diff model=" ^ m  (* both reject, different errors *)
+        | "err" :: _ -> "ok documented-rejection model=" ^ m
+        | _ -> "viol doc=reject accepted-with-an-output-other-than-the-known-behaviour model=" ^ m ^ " rt " ^ mrt
+    end else
     if m <> impl_ser then begin
       (* the property on the implementation's own output: the documented outcome *)
       let doc = match t with TNative _ -> Some Reject | TUdt db -> doc_ser_value d db in
@@ -285,9 +295,17 @@ and verdict_case case impl =
     let db = match t with TUdt db -> db | TNative _ -> [] in
     let m = de_str (gen_typeck_value d t) (fun () -> gen_deser_value d db cells) in
     let doc = match t with TNative _ -> Some Reject | TUdt db -> doc_de_value d db cells in
-    if (match t with TUdt db -> ordered_am_drops d db | TNative _ -> false) &&
-       (match impl with "ok" :: _ -> true | _ -> false)
-    then "viol class=" ^ known_class ^ " doc=reject model=" ^ m
+    if (match t with TUdt db -> ordered_am_drops d db | TNative _ -> false) then begin
+      (* F24, see SV: tag only on the exact known behaviour; a rejection is the documented outcome *)
+      let is = String.concat " " impl in
+      let model_accepts = String.length m >= 2 && String.sub m 0 2 = "ok" in
+      if is = m && not model_accepts then "ok"                  (* both reject, same error *)
+      else if is = m then "viol class=" ^ known_class ^ " doc=reject model=" ^ m
+      else match impl with
+        | ("tck" | "des") :: _ when not model_accepts -> "diff model=" ^ m
+        | ("tck" | "des") :: _ -> "ok documented-rejection model=" ^ m
+        | _ -> "viol doc=reject accepted-with-an-output-other-than-the-known-behaviour model=" ^ m
+    end
     else verdict_de ~model:m ~impl:(String.concat " " impl) ~doc
   | [("SR" | "PR" | "PT"); _; desc; cols; vals] ->
     (* PR = SR on column specs the driver decoded itself from an encoded PREPARED response *)
